@@ -334,9 +334,18 @@ fn c04_case(leg: &mut Leg, wire: &[u8], limit: usize) {
                     leg.violation(format!("C04/{}", class), format!("limit {}: {} (full {} octets, emitted {})", limit, e, full.len(), out.len()), replay)
                 }
                 Ok((om, _)) => {
+                    // The OPT pseudo-record may sit anywhere in the additional section (RFC 6891 6.1.1) and the reference
+                    // decoder lifts it out, so it is judged on its own: kept (unchanged) or omitted, never "out of order".
+                    let want_rr: Vec<rn::Rr> = fm.answer.iter().chain(fm.authority.iter()).chain(fm.additional.iter()).cloned().collect();
+                    let got_rr: Vec<rn::Rr> = om.answer.iter().chain(om.authority.iter()).chain(om.additional.iter()).cloned().collect();
+                    let opt_ok = match (&fm.opt, &om.opt) {
+                        (_, None) => true,
+                        (Some(a), Some(b)) => a == b,
+                        (None, Some(_)) => false,
+                    };
+                    let is_prefix = opt_ok && got_rr.len() <= want_rr.len() && got_rr.iter().zip(want_rr.iter()).all(|(a, b)| a == b);
                     let want = all_records(&fm);
                     let got = all_records(&om);
-                    let is_prefix = got.len() <= want.len() && got.iter().zip(want.iter()).all(|(a, b)| a == b);
                     if om.questions != fm.questions || om.id != fm.id {
                         leg.violation("C04/question-or-id-changed", format!("limit {}", limit), replay);
                     } else if !is_prefix {
